@@ -80,7 +80,7 @@ def plan(tier, seed):
     # (a1) exhaustive catalogue, balanced by cost (largest first so the budget cut loses little)
     items = G.short_catalog()
     costs = sorted(((G.item_cost(it), i) for i, it in enumerate(items)), reverse=True)
-    target = 22000 if quick else 22000
+    target = 45000
     cur, cur_cost = [], 0
     for cst, i in costs:
         cur.append(i)
@@ -95,15 +95,15 @@ def plan(tier, seed):
     for i in range(npairs):
         batches.append({"gen": "a_pairs", "item": i, "cap": 6000 if quick else 150000, "seed": seed * 1000003 + i})
     # (a3) frame-level random, (a4) real-sender cases, (b) round trips
-    nf, ns, nrt = (44, 44, 40) if quick else (900, 900, 900)
+    nf, ns, nrt = (16, 16, 16) if quick else (300, 300, 300)
     mixed = []
     for i in range(max(nf, ns, nrt)):
         if i < nf:
-            mixed.append({"gen": "a_frames", "seed": seed * 1000003 + i, "cases": 4 if quick else 6, "nrand": 14 if quick else 60})
+            mixed.append({"gen": "a_frames", "seed": seed * 1000003 + i, "cases": 12 if quick else 16, "nrand": 14 if quick else 60})
         if i < ns:
-            mixed.append({"gen": "a_sender", "seed": seed * 1000003 + i, "cases": 8 if quick else 10, "nrand": 14 if quick else 60})
+            mixed.append({"gen": "a_sender", "seed": seed * 1000003 + i, "cases": 16 if quick else 20, "nrand": 14 if quick else 60})
         if i < nrt:
-            mixed.append({"gen": "rt", "seed": seed * 1000003 + i, "cases": 4 if quick else 6})
+            mixed.append({"gen": "rt", "seed": seed * 1000003 + i, "cases": 10 if quick else 25})
     # interleave the heavy exhaustive batches with the mixed ones so that a budget cut is spread
     out = []
     a, b = batches, mixed
@@ -180,6 +180,63 @@ class Checker:
         res.count("ref_outcome_" + ("raised" if r.raised else "closed" if r.closed is not None else "events" if r.events else "silent"))
         self.interesting = bool(r.events or r.closed is not None or r.raised)
         self.lays = {k: L.stream_layout(k, d) for k, (d, f) in case.full_streams().items()}
+        self._sources = None
+
+    def error_sources(self):
+        """Number of independent error sources *as measured on the real receiver*: the context streams
+        (control / QPACK) delivered whole, then every other stream whole on top of the context (or alone if
+        the context itself is the error).  Used only to decide whether a differing close code may be a
+        legitimate consequence of the interleaving."""
+        if self._sources is not None:
+            return self._sources
+        case = self.case
+        if len(case.phases) != 1:
+            self._sources = 1
+            return 1
+        ph = case.phases[0]
+        keys = ph.keys()
+        ctx = [k for k in keys if k != "dg" and self.lays[k][0] in ("control", "qenc", "qdec")]
+        # an additional control / QPACK stream is an error source of its own, not context
+        seen_kinds = set()
+        ctx2 = []
+        for k in ctx:
+            if self.lays[k][0] in seen_kinds:
+                continue
+            seen_kinds.add(self.lays[k][0])
+            ctx2.append(k)
+        ctx = ctx2
+
+        def steps_for(ks):
+            out = []
+            for k in ks:
+                if k == "dg":
+                    out.extend(["dg", 1, False] for _ in ph.dgs)
+                else:
+                    out.append([k, len(ph.data[k]), ph.fin[k]])
+            return [out]
+
+        n = 0
+        base = L.deliver(self.env, case, steps_for(ctx), partial=True)
+        ctx_bad = base.closed is not None or base.raised
+        if ctx_bad:
+            n += 1
+        for k in keys:
+            if k in ctx:
+                continue
+            if k == "dg":
+                # each datagram is its own source
+                for i in range(len(ph.dgs)):
+                    one = L.Case(case.recv_client, case.wt)
+                    one.phases[0].add_dgram(ph.dgs[i])
+                    o = L.deliver(self.env, one, [[["dg", 1, False]]])
+                    if o.closed is not None or o.raised:
+                        n += 1
+                continue
+            o = L.deliver(self.env, case, steps_for(([] if ctx_bad else ctx) + [k]), partial=True)
+            if o.closed is not None or o.raised:
+                n += 1
+        self._sources = n
+        return n
 
     def check(self, label, sched, sig_extra=None, full_sig=True):
         res = self.res
@@ -190,10 +247,20 @@ class Checker:
             res.count("blocked_resumes_observed", var.resumes)
             res.count("deliveries_with_blocked_stream")
         diffs = L.classify(self.case, self.ref, var)
-        for sig, text in diffs:
-            if sig == "obs":
+        if diffs and diffs[0][0].startswith("chunk:close-"):
+            if var.closed is not None and self.ref.closed is not None and self.error_sources() > 1:
+                # two independent protocol errors in the case: which one is reported first legitimately
+                # depends on the interleaving
                 res.count("obs_close_code_differs_multi_fault")
-                continue
+                diffs = []
+            else:
+                # name the mechanism: re-run the delivery that closed with the diagnostic probe on
+                if var.closed is not None:
+                    diag = L.close_diag(self.case, L.deliver(self.env, self.case, sched, probe=True))
+                else:
+                    diag = L.close_diag(self.case, L.deliver(self.env, self.case, self.ref_sched, probe=True))
+                diffs = L.classify(self.case, self.ref, var, diag)
+        for sig, text in diffs:
             res.violation(
                 sig,
                 "%s [case %s, delivery %s]" % (text, self.case.label, label),
@@ -399,7 +466,8 @@ def gen_response_headers(rng, budget=1500, nmax=40, body_len=None):
 
 
 def gen_trailers(rng, budget=600):
-    return gen_fields(rng, budget, 6)
+    # never empty: pylsqpack's decoder rejects a field section without any field line (third-party behaviour)
+    return gen_fields(rng, budget, 6) or [(rng.choice([b"x-checksum", b"server-timing", b"x-a"]), gen_value(rng, 20))]
 
 
 def gen_body_parts(rng, max_total, max_parts=50):
@@ -488,8 +556,11 @@ def build_message_script(rng, kind, sid_getter, exp, max_body, push_id=None, bud
     else:
         headers = gen_response_headers(rng, budget, body_len=body_len)
     last_is_headers = not parts and trailers is None
+    if with_push and (last_is_headers or rng.random() < 0.4):
+        ops.extend(with_push)  # a promise may precede the response headers (and must precede the FIN)
+        with_push = None
     ops.append(("headers", headers, last_is_headers, push_id))
-    if with_push is not None:
+    if with_push:
         ops.extend(with_push)
     for i, p in enumerate(parts):
         end = trailers is None and i == len(parts) - 1
@@ -506,6 +577,7 @@ class SenderApp:
         self.h3, self.quic, self.rng, self.exp, self.res, self.case_ref = h3, quic, rng, exp, res, case_ref
         self.scripts = []  # [ {ops: [...], sid: int|None, i: 0} ]
         self.next_push = 0
+        self.pushes_planned = 0
         self.failed = False
 
     def add_script(self, ops, sid=None, alloc=None):
@@ -562,8 +634,16 @@ class SenderApp:
             self.res.count("submitted_send_data_calls")
         elif k == "push":
             _, headers, push_ops_builder = op
-            push_sid = self._api("send_push_promise", h3.send_push_promise, sid, headers)
-            if push_sid is None:
+            try:
+                push_sid = h3.send_push_promise(sid, headers)
+            except Exception as exc:
+                if type(exc).__name__ == "NoAvailablePushIDError":
+                    # documented refusal (the peer's MAX_PUSH_ID has not arrived yet / is used up): not submitted
+                    self.res.count("obs_push_refused_no_push_id")
+                    return
+                self.failed = True
+                self.res.violation(exc_signature(exc, "send:send_push_promise-raised:"), "send_push_promise raised %r on a valid submission" % (exc,),
+                                   self.case_ref, exc_witness(exc))
                 return
             pid = self.next_push
             self.next_push += 1
@@ -603,6 +683,9 @@ def plan_sender_scripts(rng, app: SenderApp, is_client, wt, n_msgs, max_body, ca
             pushes = []
             if can_push and rng.random() < 0.4:
                 for _ in range(rng.choice([1, 1, 2])):
+                    if app.pushes_planned >= 8:  # the client's initial MAX_PUSH_ID
+                        break
+                    app.pushes_planned += 1
                     ph = gen_request_headers(rng, 600)
                     ph = [f for f in ph if f[0] != b"content-length"]
                     ph[0:4] = [(b":method", b"GET"), (b":scheme", b"https"), (b":authority", b"localhost"), (b":path", b"/pushed/%d" % rng.randrange(100))]
@@ -781,6 +864,25 @@ class Endpoint:
             return _orig(stream_id, data, end_stream)
 
         conn.send_stream_data = tapped  # harness-side observation of encoder-stream writes (instance attribute)
+        # diagnostics for a close initiated by this endpoint's HTTP/3 layer (names the mechanism in the signature)
+        self.last_call = None
+        self.local_close = None
+        orig_close = conn.close
+
+        def close_tap(*a, _orig=orig_close, **kw):
+            if self.local_close is None:
+                self.local_close = (kw.get("error_code", a[0] if a else None), kw.get("reason_phrase", ""), self.last_call)
+            return _orig(*a, **kw)
+
+        conn.close = close_tap
+        orig_h = getattr(h3, "_handle_request_or_push_frame", None)
+        if orig_h is not None:
+
+            def spy(frame_type, frame_data, stream, stream_ended, _orig=orig_h):
+                self.last_call = (stream.stream_id, L.tclass(int(frame_type)), frame_data is None)
+                return _orig(frame_type=frame_type, frame_data=frame_data, stream=stream, stream_ended=stream_ended)
+
+            h3._handle_request_or_push_frame = spy
 
     def pump_events(self):
         new = []
@@ -790,6 +892,7 @@ class Endpoint:
                 break
             if type(ev).__name__ == "ConnectionTerminated":
                 self.terminated = (ev.error_code, ev.reason_phrase)
+            self.last_call = None
             try:
                 evs = self.h3.handle_event(ev)
             except Exception as exc:
@@ -988,7 +1091,11 @@ def _rt_case(env, seed, res, case_ref, HandshakePair, CLIENT_ADDR, SERVER_ADDR):
     if C.terminated or S.terminated:
         t = C.terminated or S.terminated
         if t[0] != "raised":
-            res.violation("rt:connection-terminated:0x%x" % t[0], "connection terminated during a valid exchange: %r" % (t,), case_ref,
+            diag = "transport"
+            for ep, exp in ((C, exp_s2c), (S, exp_c2s)):
+                if ep.local_close is not None:
+                    diag = "%s-h3:%s" % (ep.name, _rt_close_diag(ep, exp))
+            res.violation("rt:connection-terminated:0x%x:%s" % (t[0], diag), "connection terminated during a valid exchange: %r" % (t,), case_ref,
                           {"client": _brief(C.out), "server": _brief(S.out)})
         return
     if not quiescent:
@@ -1007,6 +1114,20 @@ def _rt_case(env, seed, res, case_ref, HandshakePair, CLIENT_ADDR, SERVER_ADDR):
     res.sample({"gen": "rt", "seed": seed, "net": net, "requests": n_req, "wt": wt, "max_body": max_body, "rounds": rnd,
                 "datagrams": stats["dgrams"], "held": stats["held"], "dropped": stats["dropped"], "streams_compared": n,
                 "blocked_resumes": resumes, "body_bytes": body}, limit=2)
+
+
+def _rt_close_diag(ep, exp):
+    """what the closing HTTP/3 layer was doing: the last frame-handler call of the QUIC event that made it close"""
+    lc = ep.local_close[2]
+    if lc is None:
+        return "no-frame-handler-call"
+    sid, tname, resumed = lc
+    if not resumed:
+        return "frame=" + tname
+    want = exp.normalised().get(sid, {"items": []})["items"]
+    got = ep.out.streams.get(sid, {"items": []})["items"]
+    nxt = want[len(got)][0] if len(got) < len(want) else "?"
+    return "resume-of-blocked-%s(handled-as-%s)" % ({"H": "HEADERS", "P": "PUSH_PROMISE"}.get(nxt, nxt), tname)
 
 
 def rt(batch, res):
